@@ -375,7 +375,7 @@ def unit_regex(n, opts):
 
 
 def jobs(quick):
-    return [('tokenize: TOKENIZER pattern vs lexical grammar, texts of <= %d characters' % n, unit_regex, (n, {})) for n in ((4, 6) if quick else (4, 6, 8))]
+    return [('tokenize: TOKENIZER pattern vs lexical grammar, texts of <= %d characters' % n, unit_regex, (n, {})) for n in ((4, 8) if quick else (8, 12))]
 
 
 def replay_regex(rep, pid, name, cex):
